@@ -80,12 +80,27 @@ func vxArg(id string, shapes int) ast.Constant {
 		}
 		return ast.Number([]int64{0, 7, -42}[vxChoose(id+"_num", 3)])
 	case 1:
-		names := []string{"/a", "/a/b", "/x%41y", "/100%"}
+		names := []string{"/a", "/a/b", "/x%41y", "/100%", "/a%b%41", "/100%%"}
 		nm := names[vxChoose(id+"_nm", len(names))]
 		if strings.Contains(nm, "%") {
 			vxTag("name-with-percent")
 		}
 		c, _ := ast.Name(nm)
+		return c
+	}
+	if vxParam("SYMNAME", 0) > 0 && id == "c0_0_0" {
+		// one designated cell is a name whose characters are arbitrary CONSTANT_CHARs
+		// (letters, digits, . - _ ~ %) or '/', with no empty part
+		n := vxParam("SYMNAME", 0)
+		b := vxBytes(id+"_name", n)
+		for i := 0; i < n; i++ {
+			c := b[i]
+			okc := (c >= 'a' && c <= 'z') || (c >= 'A' && c <= 'Z') || (c >= '0' && c <= '9') || c == '.' || c == '-' || c == '_' || c == '~' || c == '%' || (c == '/' && i > 0 && i < n-1 && b[i-1] != '/')
+			vxAssume(okc)
+		}
+		vxTag("name-with-percent")
+		c, err := ast.Name("/" + string(b))
+		vxAssume(err == nil)
 		return c
 	}
 	strs := []string{"", "a b", "x\ny"}
